@@ -164,6 +164,7 @@ var checks = []Check{
 			{Pkg: "proc/redis", Scenarios: []string{"C02/stack-race"}, Race: true, Shards: 1, QuickS: 120, ThoroughS: 600},
 			{Pkg: "proc/redis", Scenarios: []string{"C02/client"}, Shards: 16, QuickS: 80, ThoroughS: 600},
 			{Pkg: "proc/redis", Scenarios: []string{"C02/upstream"}, Shards: 16, QuickS: 80, ThoroughS: 600},
+			{Pkg: "proc/redis", Scenarios: []string{"C02/upstream-redirect"}, Shards: 16, QuickS: 150, ThoroughS: 900},
 			{Pkg: "proc/redis", Scenarios: []string{"C02/stack"}, Shards: 16, QuickS: 80, ThoroughS: 600},
 		},
 	},
